@@ -308,7 +308,19 @@ func (r *layoutRun) observe(op string) {
 		kids = append(kids, map[string]interface{}{"x": x1, "y": y1, "w": x2 - x1 + 1, "h": y2 - y1 + 1, "pw": pw, "ph": ph,
 			"fill": r.fills[i], "drawn": d, "nest": nest})
 	}
-	r.tw.Emit(trace.Ev{"ev": "Layout", "op": op, "horiz": r.horiz, "W": r.rv.w, "H": r.rv.h, "kids": kids, "overdraw": over})
+	want, got := []int{}, []int{}
+	for _, k := range r.kids {
+		want = append(want, k.id)
+	}
+	for _, w := range r.box.Widgets() {
+		if sw, ok := w.(*stubWidget); ok {
+			got = append(got, sw.id)
+		} else {
+			got = append(got, -1)
+		}
+	}
+	r.tw.Emit(trace.Ev{"ev": "Layout", "op": op, "horiz": r.horiz, "W": r.rv.w, "H": r.rv.h, "kids": kids, "overdraw": over,
+		"ids": want, "wids": got})
 }
 
 func runLayout(tw *trace.Writer, rng *rand.Rand, nops int) {
@@ -329,7 +341,24 @@ func runLayout(tw *trace.Writer, rng *rand.Rand, nops int) {
 
 func (r *layoutRun) step(rng *rand.Rand) {
 	{
-		switch k := rng.Intn(10); {
+		switch k := rng.Intn(12); {
+		case k == 10 && len(r.kids) > 0: // a child's content (preferred size) changes: it tells its watchers, the next Draw lays out again
+			c := r.kids[rng.Intn(len(r.kids))]
+			if c.nest != nil {
+				r.observe("Draw")
+				return
+			}
+			c.pw, c.ph = rng.Intn(9), rng.Intn(6)
+			c.PostEventWidgetContent(c)
+			r.observe("ChildChange")
+		case k == 11: // removing a widget the layout does not hold, and a style change: neither moves anything
+			if rng.Intn(2) == 0 {
+				r.box.RemoveWidget(&stubWidget{pw: 3, ph: 3, id: 999})
+				r.observe("RemoveAbsent")
+			} else {
+				r.box.SetStyle(tcell.StyleDefault.Reverse(true))
+				r.observe("SetStyle")
+			}
 		case k < 4 && len(r.kids) < 8:
 			w := &stubWidget{pw: rng.Intn(9), ph: rng.Intn(6), id: r.nextq}
 			r.nextq++
